@@ -60,7 +60,7 @@ fn has_opt_table_member(s: &Schema, t: &Ty, depth: usize) -> bool {
   walk_ty(
     t,
     &mut |en, in_map| {
-      if in_map && matches!(en.occ, Some(Occ::Opt)) && matches!(&en.kind, EntKind::Val { key: Some(k), .. } if is_table_key(k)) {
+      if in_map && vcore::sem::occ_bounds(&en.occ) == (0, Some(1)) && matches!(&en.kind, EntKind::Val { key: Some(k), .. } if is_table_key(k)) {
         found = true;
       }
       match &en.kind {
@@ -87,7 +87,7 @@ fn has_opt_table_member(s: &Schema, t: &Ty, depth: usize) -> bool {
             e,
             true,
             &mut |en, in_map| {
-              if in_map && matches!(en.occ, Some(Occ::Opt)) && matches!(&en.kind, EntKind::Val { key: Some(k), .. } if is_table_key(k)) {
+              if in_map && vcore::sem::occ_bounds(&en.occ) == (0, Some(1)) && matches!(&en.kind, EntKind::Val { key: Some(k), .. } if is_table_key(k)) {
                 f = true;
               }
             },
@@ -108,7 +108,7 @@ fn has_opt_table_member(s: &Schema, t: &Ty, depth: usize) -> bool {
 pub fn nested_opt_table(s: &Schema) -> bool {
   any_ent(s, |en, in_map| {
     in_map
-      && !matches!(en.occ, None | Some(Occ::Opt))
+      && !matches!(vcore::sem::occ_bounds(&en.occ), (_, Some(1)))
       && match &en.kind {
         EntKind::Val { key: Some(k), ty } if is_table_key(k) => has_opt_table_member(s, ty, 0),
         _ => false,
